@@ -43,6 +43,7 @@ type Object struct {
 	T    types.Type
 	Name string
 	init bool // allocated during package initialisation
+	snap Value // value after initialisation (restored at the start of every path)
 }
 
 type Pointer struct {
@@ -126,6 +127,7 @@ type MapObj struct {
 	Entries []mapEntry
 	T       *types.Map
 	init    bool
+	snap    []mapEntry
 }
 
 type ChanObj struct {
